@@ -228,6 +228,13 @@ def _deep_instances(typ: str) -> Iterator[Instance]:
                     yield 4, (-1,) + tuple(lows) + tuple(ups), ((-1, 1),) * 4
         for lows, ups in (((0, 0, 0, 0), (1, 1, 1, 1)), ((1, 0, 0, 1), (1, 2, 2, 1)), ((0, 1, 1, 0), (2, 1, 1, 2)), ((0, 0, 0, 0), (3, 1, 1, 3))):
             yield 3, (0,) + lows + ups, ((0, 3),) * 3
+        # 4 variables over 3 values, every (l, u) with 0 <= l <= u, 1 <= u <= 3, l <= 2 (path compression of the stable sets
+        # only matters from this size on)
+        caps = [(l, u) for u in (1, 2, 3) for l in (0, 1, 2) if l <= u]
+        for c in itertools.product(caps, repeat=3):
+            yield 4, (0,) + tuple(x[0] for x in c) + tuple(x[1] for x in c), ((0, 2),) * 4
+        for ups in ((1, 1, 1, 2), (1, 1, 2, 1), (2, 1, 1, 1), (1, 2, 1, 1), (2, 2, 1, 1), (1, 1, 1, 1)):
+            yield 5, (0, 0, 0, 0, 0) + ups, ((0, 3),) * 5
     elif typ == "lexicographic_leq":
         yield 8, (), ((0, 1),) * 8
         yield 4, (), ((0, 3),) * 4
